@@ -19,17 +19,18 @@ import (
 // Batch is one homogeneous set of runs: an engine in a mode, executed by one
 // build variant of the worker binary.
 type Batch struct {
-	Engine  string
-	Mode    string
-	Variant string            // build variant of the worker ("", "race", "noregpool", ...)
-	Runs    uint64            // number of runs (upper bound)
-	Millis  int64             // wall budget per worker, 0 = none
-	Workers int               // 0 = default
-	Env     []string          // extra environment
-	HangS   int               // watchdog per run, seconds (0 = default 30)
-	Chunk   int               // runs per worker process (0 = default 1500)
-	Note    string            // for evidence
-	Extra   map[string]string // free
+	Engine   string
+	Mode     string
+	Variant  string            // build variant of the worker ("", "race", "noregpool", ...)
+	Runs     uint64            // number of runs (upper bound)
+	Millis   int64             // wall budget per worker, 0 = none
+	Workers  int               // 0 = default
+	Env      []string          // extra environment
+	HangS    int               // watchdog per run, seconds (0 = default 30)
+	Chunk    int               // runs per worker process (0 = default 1500)
+	Note     string            // for evidence
+	DiffBase string            // if set (use "std" for the default build): runs are also executed by that variant and the event logs must be equal
+	Extra    map[string]string // free
 }
 
 // CheckSpec describes a check of one property.
@@ -65,6 +66,7 @@ type CheckResult struct {
 	PerBatch   []BatchResult
 	HangsUnc   int
 	InfraError string
+	Hashes     map[string]map[uint64]uint64 // variant/mode -> run idx -> log hash (cross-build comparison)
 }
 
 // BatchResult is the per-batch summary for evidence.
@@ -98,6 +100,7 @@ type ReplayFile struct {
 	Engine    string   `json:"engine"`
 	Mode      string   `json:"mode"`
 	Variant   string   `json:"variant"`
+	DiffBase  string   `json:"diff_base,omitempty"`
 	Env       []string `json:"env,omitempty"`
 	Seed      uint64   `json:"seed"`
 	Run       uint64   `json:"run"`
@@ -416,6 +419,19 @@ func runSearchWorker(spec *CheckSpec, b Batch, k, nw int, res *CheckResult, mu *
 			case strings.HasPrefix(s, "R "):
 				fmt.Sscanf(s[2:], "%d", &last)
 				started = true
+			case strings.HasPrefix(s, "H "):
+				var idx, hv uint64
+				fmt.Sscanf(s[2:], "%d %d", &idx, &hv)
+				mu.Lock()
+				key := b.Mode + "|" + b.Variant
+				if res.Hashes == nil {
+					res.Hashes = map[string]map[uint64]uint64{}
+				}
+				if res.Hashes[key] == nil {
+					res.Hashes[key] = map[uint64]uint64{}
+				}
+				res.Hashes[key][idx] = hv
+				mu.Unlock()
 			case strings.HasPrefix(s, "V "):
 				var rep RunReport
 				if json.Unmarshal([]byte(s[2:]), &rep) == nil {
@@ -479,7 +495,7 @@ func mergeStats(res *CheckResult, st *Stats, b Batch) {
 
 // Replay executes one tape pair in a fresh worker and returns the report (or a
 // crash report).
-func Replay(binDir string, b Batch, tier string, gen, sch []uint32, hang time.Duration) RunReport {
+func replayOne(binDir string, b Batch, tier string, gen, sch []uint32, hang time.Duration) RunReport {
 	w, err := startWorker(binPath(binDir, b.Variant), b.Env)
 	if err != nil {
 		return RunReport{Violation: &Violation{Rule: "INFRA", Signature: "INFRA:start", Message: err.Error()}}
@@ -511,6 +527,54 @@ func Replay(binDir string, b Batch, tier string, gen, sch []uint32, hang time.Du
 	}
 }
 
+// Replay executes one tape pair in a fresh worker and returns the report (or a
+// crash report).  For differential batches the tape is also executed by the base
+// variant and a difference of the event logs is the violation.
+func Replay(binDir string, b Batch, tier string, gen, sch []uint32, hang time.Duration) RunReport {
+	rep := replayOne(binDir, b, tier, gen, sch, hang)
+	if b.DiffBase == "" || rep.Violation != nil {
+		return rep
+	}
+	bb := b
+	bb.Variant = baseVariant(b.DiffBase)
+	bb.DiffBase = ""
+	base := replayOne(binDir, bb, tier, gen, sch, hang)
+	return diffReports(b, rep, base)
+}
+
+func baseVariant(v string) string {
+	if v == "std" {
+		return ""
+	}
+	return v
+}
+
+func diffReports(b Batch, rep, base RunReport) RunReport {
+	if base.Violation != nil {
+		return base
+	}
+	if rep.LogHash == base.LogHash {
+		return rep
+	}
+	d := 0
+	for d < len(rep.Log) && d < len(base.Log) && rep.Log[d] == base.Log[d] {
+		d++
+	}
+	get := func(l []string, i int) string {
+		if i < len(l) {
+			return l[i]
+		}
+		return "<end>"
+	}
+	v := b.Variant
+	if v == "" {
+		v = "std"
+	}
+	rep.Violation = &Violation{Rule: "XBUILD", Signature: "XBUILD:log-differs:" + v + "-vs-" + b.DiffBase,
+		Message: fmt.Sprintf("event log of build %q differs from build %q at #%d: %s vs %s", v, b.DiffBase, d, get(rep.Log, d), get(base.Log, d))}
+	return rep
+}
+
 // persistent replay worker for the minimiser (restarted after crashes)
 type replayer struct {
 	binDir string
@@ -518,11 +582,26 @@ type replayer struct {
 	tier   string
 	hang   time.Duration
 	w      *worker
+	base   *replayer
 	Execs  int
 }
 
 func (r *replayer) run(gen, sch []uint32) RunReport {
 	r.Execs++
+	rep := r.runOne(gen, sch)
+	if r.b.DiffBase == "" || rep.Violation != nil {
+		return rep
+	}
+	if r.base == nil {
+		bb := r.b
+		bb.Variant = baseVariant(r.b.DiffBase)
+		bb.DiffBase = ""
+		r.base = &replayer{binDir: r.binDir, b: bb, tier: r.tier, hang: r.hang}
+	}
+	return diffReports(r.b, rep, r.base.runOne(gen, sch))
+}
+
+func (r *replayer) runOne(gen, sch []uint32) RunReport {
 	if r.w == nil {
 		w, err := startWorker(binPath(r.binDir, r.b.Variant), r.b.Env)
 		if err != nil {
@@ -560,6 +639,9 @@ func (r *replayer) run(gen, sch []uint32) RunReport {
 }
 
 func (r *replayer) close() {
+	if r.base != nil {
+		r.base.close()
+	}
 	if r.w != nil {
 		r.w.stdin.Close()
 		r.w.kill()
@@ -760,6 +842,7 @@ func RunCheck(spec *CheckSpec) int {
 	if spec.Post != nil {
 		spec.Post(res)
 	}
+	crossBuild(spec, res)
 
 	// 3. classify violations: group by signature, minimise and confirm the new ones
 	type group struct {
@@ -890,7 +973,7 @@ func writeReplay(spec *CheckSpec, f Found, rep RunReport, seed uint64) string {
 	os.MkdirAll(dir, 0o755)
 	v := rep.Violation
 	rf := ReplayFile{Property: spec.Property, Rule: v.Rule, Signature: v.Signature, Message: v.Message, Engine: f.Batch.Engine, Mode: f.Batch.Mode,
-		Variant: f.Batch.Variant, Env: f.Batch.Env, Seed: seed, Run: rep.Idx, Gen: rep.Gen, Sch: rep.Sch, Rendered: rep.Sample, LogHash: rep.LogHash}
+		Variant: f.Batch.Variant, DiffBase: f.Batch.DiffBase, Env: f.Batch.Env, Seed: seed, Run: rep.Idx, Gen: rep.Gen, Sch: rep.Sch, Rendered: rep.Sample, LogHash: rep.LogHash}
 	if rf.Gen == nil {
 		rf.Gen = SearchTape(seed, f.Batch.Engine+"/"+f.Batch.Mode+"/gen", rep.Idx).vals
 		rf.Sch = SearchTape(seed, f.Batch.Engine+"/"+f.Batch.Mode+"/sch", rep.Idx).vals
@@ -919,7 +1002,7 @@ func ReplayFromFile(binDir, path, tier string) int {
 		fmt.Fprintln(os.Stderr, err)
 		return 2
 	}
-	batch := Batch{Engine: rf.Engine, Mode: rf.Mode, Variant: rf.Variant, Env: rf.Env}
+	batch := Batch{Engine: rf.Engine, Mode: rf.Mode, Variant: rf.Variant, Env: rf.Env, DiffBase: rf.DiffBase}
 	rep := Replay(binDir, batch, tier, rf.Gen, rf.Sch, 120*time.Second)
 	if rep.Sample != "" {
 		fmt.Printf("case:\n%s\n", indent(rep.Sample, "  "))
@@ -959,7 +1042,7 @@ func replayCorpus(spec *CheckSpec, known []KnownFinding) int {
 			if json.Unmarshal(b, &rf) != nil || rf.Engine == "" {
 				continue
 			}
-			batch := Batch{Engine: rf.Engine, Mode: rf.Mode, Variant: rf.Variant, Env: rf.Env}
+			batch := Batch{Engine: rf.Engine, Mode: rf.Mode, Variant: rf.Variant, Env: rf.Env, DiffBase: rf.DiffBase}
 			if _, err := os.Stat(binPath(spec.BinDir, rf.Variant)); err != nil {
 				continue // variant not built in this tier
 			}
@@ -1045,4 +1128,44 @@ func writeEvidence(spec *CheckSpec, res *CheckResult, wall time.Duration, nviol 
 	}
 	js, _ := json.MarshalIndent(ev, "", " ")
 	os.WriteFile(filepath.Join(dir, spec.Property+".json"), js, 0o644)
+}
+
+// crossBuild compares, for differential batches, the per-run log hashes reported
+// by each variant with those of the base variant.
+func crossBuild(spec *CheckSpec, res *CheckResult) {
+	for _, b := range spec.Batches {
+		if b.DiffBase == "" {
+			continue
+		}
+		mine := res.Hashes[b.Mode+"|"+b.Variant]
+		base := res.Hashes[b.Mode+"|"+baseVariant(b.DiffBase)]
+		var idxs []uint64
+		for idx, h := range mine {
+			if bh, ok := base[idx]; ok && bh != h {
+				idxs = append(idxs, idx)
+			}
+		}
+		sort.Slice(idxs, func(i, j int) bool { return idxs[i] < idxs[j] })
+		compared := 0
+		for idx := range mine {
+			if _, ok := base[idx]; ok {
+				compared++
+			}
+		}
+		if res.Stats.Counts == nil {
+			res.Stats.Counts = map[string]int64{}
+		}
+		v := b.Variant
+		if v == "" {
+			v = "std"
+		}
+		res.Stats.Counts["runs compared "+v+" vs "+b.DiffBase+" ("+b.Mode+")"] += int64(compared)
+		for i, idx := range idxs {
+			if i >= 20 {
+				break
+			}
+			res.Found = append(res.Found, Found{Batch: b, Crash: true, Report: RunReport{Idx: idx, Violation: &Violation{Property: spec.Property, Rule: "XBUILD",
+				Signature: "XBUILD:log-differs:" + v + "-vs-" + b.DiffBase, Message: fmt.Sprintf("run %d: event-log hash of build %q differs from build %q", idx, v, b.DiffBase)}}})
+		}
+	}
 }
